@@ -203,7 +203,7 @@ def gen_history(rng, length):
             a = int(rng.integers(2, 4))
             args = [a, int(rng.integers(0, a))]
         elif op in (5, 6):
-            args = [int(rng.integers(1, cur + 2))]
+            args = [int(rng.integers(0, cur + 2))]       # 0 (an empty selection) up to more than the loader holds
         elif op == 7:
             args = [int(rng.integers(1, 4))]
         else:
